@@ -13,8 +13,8 @@ OneSes == {Shape(1, 1, 1, 1)}
 OneShape == {Shape(1, 1, 2, 1)}
 UpTo4 == {sh \in AllShapes : NEvents(sh) <= 4}
 \* exhaustive generation, quick: no session level or a single file below a session
-GenQuick == {Shape(1, 0, 1, 1), Shape(1, 0, 2, 1), Shape(2, 0, 1, 1), Shape(1, 0, 1, 2), Shape(1, 1, 1, 1)}
-GenThorough == {sh \in AllShapes : NEvents(sh) <= 2} \cup {Shape(2, 0, 2, 1), Shape(2, 0, 1, 2)}
+GenQuick == {Shape(1, 0, 1, 1), Shape(1, 0, 2, 1)}
+GenThorough == {Shape(1, 0, 1, 1), Shape(1, 0, 2, 1), Shape(2, 0, 1, 1), Shape(1, 0, 1, 2), Shape(1, 1, 1, 1)}
 
 \* design runs: every decoy set with every shape
 AnyDecoy(sh, d) == TRUE
